@@ -42,6 +42,8 @@ def constraint_preconditions(model) -> Dict[str, Set[str]]:
         raise AnalysisError(f"only {len(out)} constraint rows found")
     return out
 
+from .common_nametable import nametable_rule
+
 
 def check(ctx):
     model = ctx.model
@@ -123,6 +125,10 @@ def check(ctx):
         run(m, {"data": Val("I", tags, False, False)}, label=f"{m.qualname}[data:{'|'.join(sorted(tags))}]")
     # index sites: constraints_validators(...)[K] feeds a node whose guard establishes K
     check_index_sites(ctx)
+
+    # ---- R5: build-time name tables
+    ctx.rule("C03.R5", "names from dependent_required are looked up in the operation's field table only under a membership guard (no KeyError for fields skipped for the operation)", floor=3)
+    nametable_rule(ctx, "C03.R5")
 
     # ---- R4: errors computable
     ctx.rule("C03.R4", "ValidationError.errors is computable whatever the (hashable) keys", floor=3)
@@ -356,12 +362,19 @@ def mutants(mb):
     Tm = "apischema/json_schema/types.py"
     E = "apischema/validation/errors.py"
     D = "apischema/deserialization/__init__.py"
+    mb.add_text("dependent-required-unguarded", D, "                if f not in alias_by_name:  # field skipped for deserialization\n                    continue\n", "", "C03.R5", "DeserializationMethodVisitor.object")
+    mb.add_text("schema-dependent-keys-unfiltered", "apischema/json_schema/schema.py", "            if f in aliases and any(req in aliases for req in reqs)\n", "", "C03.R5", "SchemaBuilder.object")
+    mb.add_text("schema-dependent-values-unfiltered", "apischema/json_schema/schema.py", "            f: [req for req in reqs if req in aliases]\n", "            f: list(reqs)\n", "C03.R5", "SchemaBuilder.object")
+    mb.add_text("coerce-str-huge-int", C, "            try:\n                return str(data)  # type: ignore\n            except ValueError:  # int too large for decimal conversion\n                raise bad_type(data, cls)", "            return str(data)  # type: ignore", "C03.R1", "coerce")
+    mb.add_text("coerce-none-unhashable-str", C, "        try:\n            if data is None or (isinstance(data, str) and data in STR_NONE_VALUES):\n                return None  # type: ignore\n        except TypeError:  # str subclass which is not hashable\n            pass\n        raise bad_type(data, cls)", "        if data is None or (isinstance(data, str) and data in STR_NONE_VALUES):\n            return None  # type: ignore\n        raise bad_type(data, cls)", "C03.R1", "coerce")
+    mb.add_text("neg-dependent-guard-if-form", D, "                if f not in alias_by_name:  # field skipped for deserialization\n                    continue\n                for req in reqs:\n                    requiring[req].add(alias_by_name[f])", "                if f in alias_by_name:\n                    for req in reqs:\n                        requiring[req].add(alias_by_name[f])", negative=True)
     # reverse of the fix: commits
     mb.add_text("literal-indexerror", M, "                    except (KeyError, TypeError):\n                        pass", "                    except IndexError:\n                        pass", "C03.R", "LiteralMethod")
     mb.add_text("literal-no-typeerror", M, "        except TypeError:\n            raise bad_type(data, *self.types)", "        except AttributeError:\n            raise bad_type(data, *self.types)", "C03.R", "LiteralMethod")
     mb.add_text("coerce-bool-keyerror", C, "            try:\n                return STR_TO_BOOL[data.lower()]  # type: ignore\n            except KeyError:\n                raise bad_type(data, cls)\n", "            return STR_TO_BOOL[data.lower()]  # type: ignore\n", "C03.R1", "coerce")
     mb.add_text("coerce-valueerror-only", C, "        except (ValueError, TypeError, OverflowError):", "        except ValueError:", "C03.R1", "coerce")
-    mb.add_text("coerce-none-unhashable", C, "if data is None or (isinstance(data, str) and data in STR_NONE_VALUES):", "if data is None or data in STR_NONE_VALUES:", "C03.R1", "coerce")
+    # equivalent since the TypeError handler of the NoneType branch: unhashable data falls through to bad_type
+    mb.add_text("neg-coerce-none-no-isinstance", C, "if data is None or (isinstance(data, str) and data in STR_NONE_VALUES):", "if data is None or data in STR_NONE_VALUES:", negative=True)
     mb.add_text("coerce-lower-unguarded", C, "        if isinstance(data, str):\n            try:", "        if not isinstance(data, int):\n            try:", "C03.R1", "coerce")
     mb.add_text("bad-type-from-type", Tm, "    found = _type_name(data.__class__)\n", "    found = JsonType.from_type(data.__class__)\n", "C03.R1", "")
     mb.add_text("float-overflow", M, "            try:\n                return float(data)\n            except OverflowError:\n                raise ValidationError(\"integer too large to be converted to float\")\n", "            return float(data)\n", "C03.R1", "FloatMethod")
